@@ -41,8 +41,11 @@ RULE = (
     "atoms and of <=2 atoms over all 40, as is, percent-decoded once and twice, x 8 servers (send_from_directory with "
     "str / relative+_root_path / PathLike arguments, SharedDataMiddleware directory loader at /static and /, package "
     "loader, single-file export, list exports + disallow + cache with a conditional re-request) over a real scratch "
-    "tree with sentinels outside the root; secure: every BMP scalar value (thorough: every Unicode scalar value) in 6 "
-    "contexts + all strings <=3 (thorough 4) over 15 atoms, and all strings <=3 (4) over 16 device-name atoms with "
+    "tree with sentinels outside the root, plus every form of a package export (sub-path, sub-path with trailing '/', "
+    "whole package as '' and '.') and directory exports with a trailing slash / relative; secure: every BMP scalar value (thorough: every Unicode scalar value) in 6 "
+    "contexts + all strings <=3 (thorough 4) over 15 atoms, names of every length 250..260 and 63..65, 127..129, "
+    "511..513, 1023..1025, 4095..4097 with a strippable / replaceable character at the first, the last four and the "
+    "positions 253..256, ramps of one atom x 64..4096, and all strings <=3 (4) over 16 device-name atoms with "
     "werkzeug.utils seeing os.name == 'nt'. non-trivial = safe_join accepted a tuple containing a '..'/absolute/odd "
     "atom or refused one; a request that was answered 200; a filename that was changed; a device-name input."
 )
@@ -145,7 +148,8 @@ E_SHIELD = ["\0.", "\0..", "..\0", ".\0", " ..", ".. ", "\t..", "\\..", "..:", "
             "..\\secret.txt", "．．", "..／secret.txt", "....//", "..././", "%2e%00%2e"]
 E_SMALL = ["..", ".", "secret.txt", "sub", "f.txt"]
 SERVERS = ["send_from_directory", "sdm_dir", "sdm_root", "sdm_pkg", "send_from_directory_rel",
-           "send_from_directory_pathlike", "sdm_file", "sdm_disallow"]
+           "send_from_directory_pathlike", "sdm_file", "sdm_disallow", "sdm_pkg_empty", "sdm_pkg_dot",
+           "sdm_pkg_slash", "sdm_dir_slash", "sdm_dir_rel"]
 SENTINEL = b"SENTINEL: this file is outside the trusted directory"
 
 _counter = [0]
@@ -178,8 +182,14 @@ class Tree:
         put(self.pkg + "/f.txt", SENTINEL + b" pkg f")
         for rel in ("static/f.txt", "static/sub/g.txt", "static/a", "static/..a", "static/~", "static/sub/a"):
             put(self.pkg + "/" + rel, b"INSIDE pkg:" + rel.encode())
+        # a second package that is exported as a whole (package_path '' / '.'): everything in it is inside,
+        # the sentinels T/secret.txt, T/f.txt, T/a sit beside it
+        self.pkg2 = self.pkg + "_whole"
+        for rel in ("__init__.py", "f.txt", "sub/g.txt", "a", "..a", "~", "sub/a", "secret.txt"):
+            put(self.pkg2 + "/" + rel, b"# INSIDE pkg2:" + rel.encode())
         self.root = os.path.join(T, "root")
         self.pkgstatic = os.path.join(T, self.pkg, "static")
+        self.pkg2dir = os.path.join(T, self.pkg2)
         sys.path.insert(0, T)
         importlib.invalidate_caches()
 
@@ -197,6 +207,15 @@ class Tree:
             # exports given as a list, a disallow pattern, caching on, odd fallback mimetype
             "sdm_disallow": (SharedDataMiddleware(fallback, [("/static", self.root)], disallow="*.txt", cache=True,
                                                   fallback_mimetype="text/x-odd"), "/static/", self.root),
+            # every form of a package export: whole package ('' and '.'), sub-path with a trailing slash
+            "sdm_pkg_empty": (SharedDataMiddleware(fallback, {"/p2": (self.pkg2, "")}), "/p2/", self.pkg2dir),
+            "sdm_pkg_dot": (SharedDataMiddleware(fallback, {"/p2": (self.pkg2, ".")}), "/p2/", self.pkg2dir),
+            "sdm_pkg_slash": (SharedDataMiddleware(fallback, {"/pkg": (self.pkg, "static/")}), "/pkg/", self.pkgstatic),
+            # directory exports spelled with a trailing slash / relative to the working directory
+            "sdm_dir_slash": (SharedDataMiddleware(fallback, {"/static/": self.root + "/"}, cache=False), "/static/",
+                              self.root),
+            "sdm_dir_rel": (SharedDataMiddleware(fallback, {"/static": os.path.relpath(self.root)}, cache=False),
+                            "/static/", self.root),
         }
         return self
 
@@ -206,6 +225,7 @@ class Tree:
         except ValueError:
             pass
         sys.modules.pop(self.pkg, None)
+        sys.modules.pop(self.pkg2, None)
         sys.path_importer_cache.pop(self.T, None)
         shutil.rmtree(self.T, ignore_errors=True)
         return False
@@ -388,6 +408,30 @@ def secure_bad_nt(s: str):
         wutils.os = old
 
 
+LONG_LENGTHS = sorted(set(range(250, 261)) | {n + d for n in (64, 128, 512, 1024, 4096) for d in (-1, 0, 1)})
+LONG_CHARS = [".", "_", " ", "/", "-", "é", "\\"]
+RAMP_ATOMS = [".", "_", "a.", "._", " a", "é", "a", "a_", "-.", "a/"]
+RAMP_COUNTS = [64, 127, 128, 255, 256, 257, 4096]
+
+
+def long_names():
+    """Names around every length a sanitiser might cut at, with a strippable / replaceable character at each of
+    the last positions, the first ones and the positions around 255; and long ramps of one atom."""
+    for n in LONG_LENGTHS:
+        pos = sorted({p for p in (0, 1, 253, 254, 255, 256, n - 4, n - 3, n - 2, n - 1) if 0 <= p < n})
+        for c in LONG_CHARS:
+            for p in pos:
+                yield "a" * p + c + "a" * (n - p - 1)
+                if p + 1 < n:
+                    yield "a" * p + c + "." + "a" * (n - p - 2)
+                    yield "a" * p + "." + c + "b" * (n - p - 2)
+    for atom in RAMP_ATOMS:
+        for k in RAMP_COUNTS:
+            yield atom * k
+            yield "x" + atom * k
+            yield atom * k + "x"
+
+
 # ------------------------------------------------------------------ units
 
 N_JOIN = 32
@@ -401,6 +445,7 @@ def units(tier):
     out += [("sweep", lo, min(lo + SWEEP_CHUNK, top)) for lo in range(0, top, SWEEP_CHUNK)]
     out += [("sstr", i, 8) for i in range(8)]
     out += [("nt", i, 4) for i in range(4)]
+    out += [("slong", i, 4) for i in range(4)]
     return out
 
 
@@ -483,6 +528,17 @@ def run_unit(unit, R, tier):
             R.outcome(("secure", f if len(f) < 4 else "long"))
             if cp % 0x1555 == 0:
                 R.sample({"kind": "secure", "input": "a" + c + "b", "output": f})
+    elif kind == "slong":
+        _, idx, n = unit
+        for s in gen.shard(long_names(), n, idx):
+            R.ev()
+            R.count("secure_long_cases")
+            bad = secure_bad(s)
+            R.nontrivial(("long", len(s), s[:3], s[-6:], s[250:258]))
+            if len(s) > 255:
+                R.use("secure:long>255")
+            if bad:
+                R.violation(bad[0], {"kind": "secure", "sig": bad[0], "input": s, "detail": bad[1]})
     elif kind == "nt":
         _, idx, n = unit
         depth = 4 if tier == "thorough" else 3
@@ -517,7 +573,7 @@ def run_unit(unit, R, tier):
 def finalize(R, tier):
     need = {"join:refused", "join:accepted-hostile", "e2e:200-via-dotdot", "e2e:refusal:NotFound",
             "e2e:refusal:404", "secure:dropped", "secure:to-underscore", "secure:transliterated",
-            "secure:empty-result", "secure:nt:device-input", "join:accepted:pathlike", "join:accepted:altsep",
+            "secure:empty-result", "secure:long>255", "secure:nt:device-input", "join:accepted:pathlike", "join:accepted:altsep",
             "join:refused-only:altsep"}
     need |= {"join:base:" + b for b in J_BASES}
     need |= {"e2e:200:" + s for s in SERVERS} | {"e2e:refused:" + s for s in SERVERS if s != "sdm_file"}
